@@ -598,7 +598,7 @@ func c11Nonce(p *Prog, c *Check, rule string) {
 // ---------------------------------------------------------------- C12
 
 func checkC12(p *Prog, c *Check) {
-	c.Explain("Structure of the validator-update pipeline, decided on all paths: EndBlock diffs the OLD validator map against CurrentValidators(), assigns that same new map to app.Validators and returns the diff's ValidatorUpdates; DiffPowermaps emits a zero-power entry only for keys of the old map that are absent in the new map and a non-zero entry only for keys of the new map whose power differs (so it never removes an absent validator and never omits a change); ValidatorUpdates emits one entry per key and sorts; ValidatorsUpdated is set only for a started configuration whose checked-in count reaches numRequiredTransitionValidators; CurrentValidators builds the power map only for configurations with both flags; every keyper contributes the same constant 10 to its identity key if checked in, else to the placeholder key. Not decided: that folded diffs equal the intended set for every history and the > 2/3 power bound (integer arithmetic of numRequiredTransitionValidators).")
+	c.Explain("Structure of the validator-update pipeline, decided on all paths: EndBlock diffs the OLD validator map against CurrentValidators(), assigns that same new map to app.Validators and returns the diff's ValidatorUpdates; DiffPowermaps emits a zero-power entry only for keys of the old map that are absent in the new map and a non-zero entry only for keys of the new map whose power differs (so it never removes an absent validator and never omits a change); ValidatorUpdates emits one entry per key and sorts; ValidatorsUpdated is set only for a started configuration whose checked-in count reaches numRequiredTransitionValidators; CurrentValidators builds the power map only for configurations with both flags; every keyper contributes the same constant 10 to its identity key if checked in, else to the placeholder key. the transition quorum D(n) satisfies 3·D(n) > 2·n and D(n) ≤ n for every n ≥ 1 (exact decision by residue classes); accepted keyper lists are duplicate-free. Not decided: that folded diffs equal the intended set for every history.")
 	c.RuleText("GUARD + argument provenance + ORDER + map-update shape rules")
 	c.Trusted("tendermint validator update semantics", "go/ssa")
 	c12EndBlock(p, c)
